@@ -25,7 +25,6 @@ STUBS = ["mounted applications are recorders", "urllib.parse.urlsplit: the lru_c
          "urllib.parse.quote: per-byte model (differentially tested); unquote: interpreted from the stdlib source / ASCII model in the oracle"]
 ASSUMPTIONS = ["mount tables are enumerated, not solver-quantified"]
 OUTSIDE = ["non-ASCII solver characters in path/query/fragment", "solver-quantified IDN labels (concrete IDN hosts only)", "EnvironBuilder -> Request object path (latin-1 tunnelling)"]
-           "userinfo / port components", "URL texts longer than the bound"]
 
 TABLES = [
     {"/a": "A"},
